@@ -193,6 +193,7 @@ class Chooser:
         self.n_nontrivial = 0  # choices among >1 enabled events where a non-canonical one ran
         self._last: Any = None
         self._prio: Dict[Any, float] = {}
+        self._asked: Dict[Any, int] = {}
 
     # ---- schedule ----
     def choose(self, enabled: List[Any]) -> Any:
@@ -266,6 +267,12 @@ class Chooser:
     # ---- faults ----
     def fault(self, kind: str, ident: Any, prob: float) -> bool:
         ident = _tup((kind, *ident)) if isinstance(ident, (list, tuple)) else (kind, ident)
+        # the same decision point can be reached more than once (a recomputed task fetches its
+        # inputs again): every occurrence is its own decision
+        n = self._asked.get(ident, 0)
+        self._asked[ident] = n + 1
+        if n:
+            ident = (*ident, "#", n)
         if self.replay:
             fire = ident in self.faults_in
         else:
